@@ -1,4 +1,4 @@
-import Glom.Lemmas.C11k
+import Glom.Lemmas.C11l
 import Glom.Model.C11Env
 /-
   C11 — assign obeys the lens laws and fails atomically.
@@ -36,6 +36,19 @@ theorem c11_facts_wf : ∀ uc fl, WF (genEnv uc fl) = true := by
   intro uc fl
   have : WF (genEnv uc fl) = WF (genEnv [] []) := rfl
   rw [this]; decide
+
+/-- **Facts obligation, the registry of the builtin kinds**: the prescription computes "the plain Python
+    assignment" with tables fixed by the kind of the object (`naturalAssignReg`: dict → `d[k] = v`,
+    list → `l[int(k)] = v`, tuple → not assignable, any other object → `setattr`), not with what the
+    implementation's registry holds; on every builtin class — and on subclasses through their MRO —
+    the `assign` registrations read from the implementation (the results of `_assign_autodiscover`
+    for the default types) select the same handler. -/
+theorem c11_facts_natural :
+    regAgrees Generated.targetClassTable Generated.defaultReg_assign naturalAssignReg = true ∧
+    regAgrees (Generated.targetClassTable ++ [("DictSub", ["DictSub", "dict", "object"]),
+        ("ListSub", ["ListSub", "list", "object"]), ("TupleSub", ["TupleSub", "tuple", "object"]),
+        ("Obj2", ["Obj2", "Obj", "object"])])
+      Generated.defaultReg_assign naturalAssignReg = true := by decide
 
 /-- **Facts obligation, shape part**: `Assign.glomit` wraps exactly the parent fetch in
     `try … except PathAccessError` and re-raises unless `missing`; `Assign.__init__` accepts
@@ -333,10 +346,6 @@ theorem c11_read_checks {env : MEnv} {h : Heap} {target : Val} {sroot : Bool} {o
     | unreg => rw [hm] at hspec; exact hspec.elim
     | unsupported => rfl
 
-/-- a path whose first step is spelled `S[name]` is evaluated as it is written -/
-theorem c11_sMagic_item (arg : Val) (r : List Step) (sroot : Bool) :
-    readSteps sroot (("[", arg) :: r) = ("[", arg) :: r := by
-  cases sroot <;> simp [readSteps, sMagic]
 
 /-- **`missing`**: when the walk stops at segment `k` and a factory is given, a successful
     assign made exactly one factory call per absent segment — `orig.length - 1 - k` of them —;
@@ -417,6 +426,33 @@ theorem c11_star {env : MEnv} (hwf : WF env = true) (hc : classesOK env = true)
     rw [hsa] at hs
     obtain ⟨st', hrun, h1, h2, h3⟩ := hs
     simp [hrun, h1, h2, h3]
+
+/-- **Checker theorem for wildcard destinations** (T-rooted, `*` only, the parent's matches exist, the
+    value is defined): `checkC11` holds of the model's observation — every match assigned in order,
+    or an error (nothing is prescribed for the heap of a wildcard assignment that fails half-way). -/
+theorem c11_star_model_checks {env : MEnv} (hwf : WF env = true) (hc : classesOK env = true)
+    (hns : noScope env = true) (sref : Val) (missing : Missing) (h : Heap) (target : Val)
+    (orig : List Step) (op : String) (arg : Val) (hl : orig.getLast? = some (op, arg))
+    (hfin : finalOk op = true) (hw : wfStar orig.dropLast = true) (hst : hasStar orig = true)
+    (vs : ValSpec) (hvs : valWf vs = true) (hvu : valUnsupported h vs = false) (v : Val)
+    (hv : refVal env h target vs = some v) (ds : List Val)
+    (hm : matchesOf env h orig.dropLast 0 target = .ok ds) :
+    checkC11 env h target target orig vs missing (observe env (assign env false sref missing h target orig vs)) =
+      true := by
+  have hstar := c11_star hwf hc hns sref missing h target orig op arg hl hfin hw vs hvs hvu v hv ds hm
+  simp only at hstar
+  unfold checkC11 checkRef refAssign
+  simp only [hl, hfin, Bool.not_true, Bool.false_eq_true, if_false, hvu, hv, hm, hst]
+  cases hsa : seqAssign env op arg v h false ds with
+  | some res =>
+    obtain ⟨h', hid⟩ := res
+    rw [hsa] at hstar
+    obtain ⟨h1, h2, h3, h4⟩ := hstar
+    simp [observe, h1, h2, h3, h4, maskCells]
+  | none =>
+    rw [hsa] at hstar
+    obtain ⟨e, h1⟩ := hstar
+    simp [observe, h1, observeErr_isErr env e]
 
 /-- **Checker theorem** — the form in which the property is also evaluated on the
     implementation's observation by the correspondence driver. -/
@@ -603,34 +639,138 @@ theorem c11_exact_outcome {env : MEnv} {h : Heap} {target : Val} {sroot : Bool} 
   | none => rfl
   | some r => cases r <;> rfl
 
-/-- **List indices**: assigning at index `i` of a list of length `n` (`T[...]` addressing) replaces
-    exactly position `i` (for `0 ≤ i < n`) or `n + i` (for `-n ≤ i < 0`) and raises IndexError for
-    every other index — never extending the list. -/
-theorem c11_list_index (env : MEnv) (h : Heap) (a : Nat) (c : String) (xs : List Val) (i : Int) (v : Val)
-    (ha : h[a]? = some (.list c xs)) (hg : env.flag c "raise_setitem" = false) :
-    pySetitem env h (.ref a) (.int i) v =
-      if 0 ≤ i ∧ i < xs.length then .ok { heap := h.set a (.list c (xs.set i.toNat v)), cell := some a }
-      else if i < 0 ∧ 0 ≤ i + xs.length then
-        .ok { heap := h.set a (.list c (xs.set (i + xs.length).toNat v)), cell := some a }
-      else .error (exc "IndexError") := by
-  simp only [pySetitem, ha, hg, Bool.false_eq_true, if_false, asIndex, pyIdx]
-  by_cases h0 : i < 0
-  · have hn : ¬ (0 ≤ i ∧ i < (xs.length : Int)) := by omega
-    simp only [h0, if_true, hn, if_false, true_and]
-    by_cases h1 : i + (xs.length : Int) < 0
-    · have : ¬ (0 ≤ i + (xs.length : Int)) := by omega
-      simp [h1, this]
-    · have h2 : 0 ≤ i + (xs.length : Int) := by omega
-      have h3 : (i + (xs.length : Int)).toNat < xs.length := by omega
-      simp [h1, h2, h3]
-  · have hn : ¬ (i < 0 ∧ 0 ≤ i + (xs.length : Int)) := by omega
-    simp only [h0, if_false, hn]
-    have h1 : ¬ i < 0 := h0
-    by_cases h2 : i.toNat < xs.length
-    · have : 0 ≤ i ∧ i < (xs.length : Int) := by omega
-      simp [h1, h2, this]
-    · have : ¬ (0 ≤ i ∧ i < (xs.length : Int)) := by omega
-      simp [h1, h2, this]
+/-- **Facts obligation, which error**: the `except` clauses of `_assign_op` agree with the reading of
+    `refErr` — the `[` and `.` branches catch nothing (Python's exception leaves `glom()` as it is),
+    the plain-segment branch turns every exception a handler can raise into a PathAssignError — for
+    every registry. -/
+theorem c11_facts_wrap (uc : ClassTable) (fl : List (String × List String)) (ur : UReg) :
+    assignWrapOK (genEnv uc fl ur) = true := by
+  have : assignWrapOK (genEnv uc fl ur) = assignWrapOK (genEnv [] []) := rfl
+  rw [this]; decide
+
+/-- **Which error** (checked on the implementation as part of `holds`): when an assignment through a
+    wildcard-free path raises, the exception is the one the reading prescribes (`refErr`) —
+    ValueError from the constructor; `PathAccessError(e, part_idx = k)` where the parent path (no
+    factory) or the value's path stops; for a failing final step `PathAssignError(e, dest_name)` if it
+    is a plain segment and Python's own `e` if it is `T[..]` / `T.attr`; UnregisteredTarget for a
+    type without handler — and otherwise (inside the `missing` backfill) some error. -/
+theorem c11_error_class {env : MEnv} {h : Heap} {target : Val} {sroot : Bool} {orig : List Step}
+    {vs : ValSpec} {missing : Missing} (hy : Hyps env h target sroot orig vs missing)
+    (hw : assignWrapOK env = true) (sref : Val) (e : MErr)
+    (herr : (assign env sroot sref missing h target orig vs).2 = .error e) :
+    errMatches env (refErr env h target (if sroot then sref else target) orig vs missing)
+      (observeErr env e) = true := by
+  obtain ⟨hwf, hc, hs, hvw, hvu, _⟩ := covered_parts hy
+  have hany : errMatches env .any (observeErr env e) = true := observeErr_isErr env e
+  unfold refErr
+  cases hl : orig.getLast? with
+  | none =>
+    have : orig = [] := by simpa using hl
+    subst this
+    simp only [assign, assignAux_nil] at herr
+    injection herr with herr; subst herr
+    simp [errMatches, observeErr]
+  | some last =>
+    obtain ⟨op, arg⟩ := last
+    have hlastw : C01.wfSteps [(op, arg)] = true := (wfSteps_iff orig).1 hs _ (getLast?_mem hl)
+    have hfin : finalOk op = true := finalOk_of_wfSteps hlastw
+    have hons : hasStar orig = false := wfSteps_noStar hs
+    simp only [hfin, Bool.not_true, Bool.false_eq_true, if_false, hvu, hons]
+    have hvs' : ValWF ({ heap := h } : St).heap vs := by
+      cases vs with
+      | path s => exact hvw
+      | lit v => simpa [valUnsupported, ValWF] using hvu
+      | val v => trivial
+    have hev := evalVal_spec hwf hc { heap := h } target vs hvs'
+    simp only at hev
+    cases hrv : refVal env h target vs with
+    | none =>
+      simp only
+      cases vs with
+      | lit v => exact hany
+      | val v => exact hany
+      | path s =>
+        simp only
+        cases hms : matchesOf env h s 0 target with
+        | fail k e0 stop =>
+          simp only
+          have hsp := fetch_spec hwf hc h s (wfSteps_wfStar hvw) (.inl (wfSteps_noStar hvw)) 0 target
+          rw [hms] at hsp
+          simp only at hsp
+          have : evalVal env ({ heap := h } : St) target (.path s) = ({ heap := h }, .error (.pae k e0)) := by
+            simp [evalVal, hsp]
+          simp only [assign] at herr
+          rw [assignAux_val_err hl hfin this] at herr
+          injection herr with herr; subst herr
+          simp [errMatches, observeErr]
+        | ok ds => exact hany
+        | unreg => exact hany
+        | unsupported => exact hany
+    | some v =>
+      simp only
+      cases hmo : matchesOf env h orig.dropLast 0 (if sroot then sref else target) with
+      | unreg => exact hany
+      | unsupported => exact hany
+      | fail k e0 stop =>
+        simp only
+        cases missing with
+        | factory kind => exact hany
+        | none =>
+          simp only
+          rw [hrv] at hev
+          have hpw : C01.wfSteps orig.dropLast = true := wfSteps_sub hs (fun s hs' => mem_of_mem_dropLast hs')
+          have hspec := fetch_spec hwf hc h orig.dropLast (wfSteps_wfStar hpw) (.inl (wfSteps_noStar hpw)) 0
+            (if sroot then sref else target)
+          rw [hmo] at hspec
+          simp only at hspec
+          simp only [assign] at herr
+          rw [assignAux_fetch_pae_none hl hfin hev hspec] at herr
+          injection herr with herr; subst herr
+          simp [errMatches, observeErr]
+      | ok ds =>
+        cases ds with
+        | nil => exact hany
+        | cons d rest =>
+          cases rest with
+          | cons d2 r2 => exact hany
+          | nil =>
+            simp only
+            have eo := c11_exact_outcome hy sref d v op arg hl hmo hrv
+            cases hra : refAssignOp env h op d arg v with
+            | none =>
+              rw [hra] at eo; rw [eo] at herr
+              injection herr with herr; subst herr
+              simp [errMatches, observeErr]
+            | some res =>
+              cases res with
+              | ok w => exact hany
+              | error e1 =>
+                rw [hra] at eo; rw [eo] at herr
+                injection herr with herr; subst herr
+                simp only [errMatches]
+                simp only [finalOk, Bool.or_eq_true, beq_iff_eq] at hfin
+                rcases hfin with (rfl | rfl) | rfl
+                · simp [(assignErr_reading hw arg e1).1, observeErr]
+                · simp [(assignErr_reading hw arg e1).2.1, observeErr]
+                · have hmem : e1.cls ∈ assignHandlerExcs := by
+                    simp only [refAssignOp] at hra
+                    simp at hra
+                    obtain ⟨hn, _, hap⟩ := hra
+                    exact applyAssignHandler_exc hap
+                  simp [(assignErr_reading hw arg e1).2.2 hmem, observeErr]
+
+
+/-- **Checker theorem, error part**: `checkErr` (evaluated on the implementation's observation as part
+    of `holds`) is true of the model's observation. -/
+theorem c11_err_checks {env : MEnv} {h : Heap} {target : Val} {sroot : Bool} {orig : List Step}
+    {vs : ValSpec} {missing : Missing} (hy : Hyps env h target sroot orig vs missing)
+    (hw : assignWrapOK env = true) (sref : Val) :
+    checkErr env h target (if sroot then sref else target) orig vs missing
+      (observe env (assign env sroot sref missing h target orig vs)) = true := by
+  unfold checkErr observe
+  cases hr : (assign env sroot sref missing h target orig vs).2 with
+  | ok v => simp [ObsRes.isErr]
+  | error e => simp [c11_error_class hy hw sref e hr]
 
 /-- **Facts obligation with user registrations**: the branch tables do not depend on the registry;
     registrations of user classes (anything but `object` and the two duck types) in front of the
@@ -691,7 +831,8 @@ theorem c11_put_put_partial {env : MEnv} {h : Heap} {target : Val} {sroot : Bool
   obtain ⟨hwf, hc, hs, _, _, hmo⟩ := covered_parts hy
   have hcov : ∀ (hh : Heap) (v : Val), Hyps env hh target sroot orig (.val v) missing := by
     intro hh v
-    simp only [Hyps, covered, hwf, hc, hs, hmo, valWf, valUnsupported, Bool.and_self, Bool.not_false]
+    have hi := covered_intSafe hy
+    simp only [Hyps, covered, hwf, hc, hs, hmo, hi, valWf, valUnsupported, Bool.and_self, Bool.not_false]
   cases hl : orig.getLast? with
   | none =>
     have : orig = [] := by simpa using hl
@@ -730,12 +871,6 @@ theorem c11_put_put_partial {env : MEnv} {h : Heap} {target : Val} {sroot : Bool
         rw [ea, eb]
         exact ⟨rfl, by simp [St.wrote, hse.1], by simp [St.wrote, hse.2]⟩
 
-/-- **A factory without side effects**: the re-entrant model is the plain one. -/
-theorem c11_reenter_none (env : MEnv) (sroot : Bool) (sref : Val) (kind : String) (fuel : Nat) (st : St)
-    (target : Val) (orig : List Step) (vs : ValSpec) :
-    assignAuxR env id sroot sref kind fuel st target orig vs =
-      assignAux env sroot sref (.factory kind) fuel st target orig vs :=
-  assignAuxR_id env sroot sref kind fuel st target orig vs
 
 /-- **Overlapping evaluations of one spec object** (what seeded change C11-s8 breaks): when the
     `missing` factory, at the first call this evaluation makes of it, evaluates the SAME Assign
